@@ -55,9 +55,14 @@ fn flag(kind: &PacketKind) -> u8 {
 
 /// (datagram, unmasked IV‖header) per the specification.
 fn ref_encode(p: &VPacket, dst: &NodeId) -> (Vec<u8>, Vec<u8>) {
+    ref_encode_id(p, dst, b"discv5", [0, 1])
+}
+
+/// Same layout under a configured protocol identity (`ConfigBuilder::protocol_identity`).
+fn ref_encode_id(p: &VPacket, dst: &NodeId, pid: &[u8; 6], ver: [u8; 2]) -> (Vec<u8>, Vec<u8>) {
     let auth = ref_authdata(&p.kind);
-    let mut header = b"discv5".to_vec();
-    header.extend_from_slice(&[0, 1]);
+    let mut header = pid.to_vec();
+    header.extend_from_slice(&ver);
     header.push(flag(&p.kind));
     header.extend_from_slice(&p.message_nonce);
     header.extend_from_slice(&(auth.len() as u16).to_be_bytes());
@@ -307,7 +312,14 @@ pub fn run_c05() {
                 st.problem("authenticated bytes are IV ‖ unmasked header", &format!("aad:{}", flag(&p.kind)), "authenticated_data() differs".into(), dst, &got);
             }
             if expected.len() <= 1280 && expected.len() >= 63 {
-                match VPacket::decode(dst, &expected) {
+                let decoded = match catch_unwind(AssertUnwindSafe(|| VPacket::decode(dst, &expected))) {
+                    Ok(d) => d,
+                    Err(_) => {
+                        st.problem("decode never panics", &format!("panic:roundtrip:{}", flag(&p.kind)), format!("decode panicked on the encoding of {:?}", p), dst, &expected);
+                        continue;
+                    }
+                };
+                match decoded {
                     Ok((q, aad2)) => {
                         if &q != p || aad2 != aad {
                             st.problem("decode(encode(p)) == p", &format!("roundtrip:{}", flag(&p.kind)), format!("{:?} != {:?}", q, p), dst, &expected);
@@ -326,6 +338,62 @@ pub fn run_c05() {
     }
     rep.set("roundtrips", roundtrips);
     rep.set("roundtrip_packets", packets.len() as u64);
+
+    /* ---- part 1b: the same under configured protocol identities ---- */
+    // A node configured with its own protocol id / version writes and demands exactly that pair;
+    // every other pair (including the default) is "foreign".
+    let idents: Vec<([u8; 6], [u8; 2])> = vec![(*b"discv5", [0, 1]), (*b"discv5", [0, 2]), (*b"discv5", [1, 1]), (*b"custom", [0, 1]), (*b"d1scv5", [0x12, 0x34])];
+    let step = if thorough { 1 } else { 7 };
+    let mut ident_roundtrips = 0u64;
+    for (pi, p) in packets.iter().enumerate() {
+        if pi % step != 0 {
+            continue;
+        }
+        let dst = &ids[pi % ids.len()];
+        for (a, (pid, ver)) in idents.iter().enumerate() {
+            let identity = discv5::ProtocolIdentity { protocol_id: *pid, protocol_version: *ver };
+            let (expected, aad) = ref_encode_id(p, dst, pid, *ver);
+            let got = match catch_unwind(AssertUnwindSafe(|| p.clone().encode_with_identity(dst, identity))) {
+                Ok(g) => g,
+                Err(_) => {
+                    st.problem("encode never panics", &format!("panic:encode-identity:{}", flag(&p.kind)), format!("encode panicked for {:?}", p), dst, &expected);
+                    continue;
+                }
+            };
+            ident_roundtrips += 1;
+            if got != expected {
+                st.problem("encoded datagram carries the configured protocol id and version", &format!("layout-identity:{}:{a}", flag(&p.kind)), format!("encode under identity {:?}/{:?} differs from the reference for {:?}", pid, ver, p), dst, &got);
+                continue;
+            }
+            if expected.len() > 1280 || expected.len() < 63 {
+                continue;
+            }
+            for (b, (pid2, ver2)) in idents.iter().enumerate() {
+                let identity2 = discv5::ProtocolIdentity { protocol_id: *pid2, protocol_version: *ver2 };
+                st.decodes += 1;
+                let r = match catch_unwind(AssertUnwindSafe(|| VPacket::decode_with_identity(dst, identity2, &expected))) {
+                    Ok(r) => r,
+                    Err(_) => {
+                        st.problem("decode never panics", &format!("panic:identity:{}", flag(&p.kind)), format!("decode panicked on the encoding of {:?}", p), dst, &expected);
+                        continue;
+                    }
+                };
+                match (a == b, r) {
+                    (true, Ok((q, aad2))) => {
+                        if &q != p || aad2 != aad {
+                            st.problem("decode(encode(p)) == p", &format!("roundtrip-identity:{}", flag(&p.kind)), format!("{:?} != {:?}", q, p), dst, &expected);
+                        }
+                    }
+                    (true, Err(e)) => st.problem("decode(encode(p)) == p", &format!("roundtrip-identity-err:{}", flag(&p.kind)), format!("decode under the encoding identity failed: {e}"), dst, &expected),
+                    (false, Ok(_)) => st.problem("a foreign protocol id or version is rejected", &format!("foreign-identity:{a}->{b}"), format!("datagram written under {:?}/{:?} accepted by a node configured with {:?}/{:?}", pid, ver, pid2, ver2), dst, &expected),
+                    (false, Err(_)) => {
+                        *st.rejected_by_rule.entry("foreign identity").or_insert(0) += 1;
+                    }
+                }
+            }
+        }
+    }
+    rep.set("identity_roundtrips", ident_roundtrips);
 
     /* ---- part 2: totality / strictness, differential against the reference decoder ---- */
     let local = ids[0];
